@@ -101,6 +101,8 @@ def main(ctx):
             m = mm.get(c.id)
             if m is None:
                 corr_broken = corr_broken or (c, "model produced no output for the case")
+            elif any(o.startswith("skipped-big") for o in m.outs):
+                bump("fw huge (oracles only, model skipped)")
             else:
                 mo = [o.rstrip() for o in m.outs if not o.startswith("parsed")]
                 dd = first_diff([o.rstrip() for o in c.outs], mo)
